@@ -1257,6 +1257,8 @@ zip_read_local_file_header(struct archive_read *a, struct archive_entry *entry,
 			}
 		}
 		zip_entry->uncompressed_size = zip_entry->compressed_size = 0;
+		/* The link name was the body; the client's data is empty. */
+		zip->entry_uncompressed_bytes_read = 0;
 
 		if (__archive_read_consume(a, linkname_length) < 0) {
 			archive_set_error(&a->archive, ARCHIVE_ERRNO_MISC,
